@@ -17,7 +17,10 @@ import (
 	"github.com/postalsys/muti-metroo/verifharness/vh"
 )
 
-type fakeConn struct{ dialer bool }
+type fakeConn struct {
+	dialer bool
+	tt     transport.TransportType
+}
 
 func (f *fakeConn) OpenStream(ctx context.Context) (transport.Stream, error) {
 	<-ctx.Done()
@@ -31,7 +34,12 @@ func (f *fakeConn) Close() error                       { return nil }
 func (f *fakeConn) LocalAddr() net.Addr                { return &net.TCPAddr{} }
 func (f *fakeConn) RemoteAddr() net.Addr               { return &net.TCPAddr{} }
 func (f *fakeConn) IsDialer() bool                     { return f.dialer }
-func (f *fakeConn) TransportType() transport.TransportType { return transport.TransportType("fake") }
+func (f *fakeConn) TransportType() transport.TransportType {
+	if f.tt == "" {
+		return transport.TransportQUIC
+	}
+	return f.tt
+}
 
 type replay struct {
 	Kind       string   `json:"kind"` // "allocator" | "connection-pair"
@@ -135,8 +143,12 @@ func main() {
 	runPair := func(g, m int) {
 		// both ends of one connection as the agent builds them
 		id, _ := identity.NewAgentID()
-		d := peer.NewConnection(&fakeConn{dialer: true}, peer.DefaultConnectionConfig(id))
-		a := peer.NewConnection(&fakeConn{dialer: false}, peer.DefaultConnectionConfig(id))
+		// the role decides the parity whatever carries the connection
+		tts := []transport.TransportType{transport.TransportQUIC, transport.TransportHTTP2, transport.TransportWebSocket}
+		tt := tts[(g+m+c.Res.Evaluations)%len(tts)]
+		d := peer.NewConnection(&fakeConn{dialer: true, tt: tt}, peer.DefaultConnectionConfig(id))
+		a := peer.NewConnection(&fakeConn{dialer: false, tt: tt}, peer.DefaultConnectionConfig(id))
+		c.Count("transport:" + string(tt))
 		defer d.Close()
 		defer a.Close()
 		var dIDs, aIDs []uint64
